@@ -176,7 +176,9 @@ class _WF:
         return False
 
     def write(self, b):
-        _env.out("write", "ok")
+        # the write inside the critical section may fail (ENOSPC / EIO): the worker stays alive and must still release the lock
+        if _env.out("write", "eio", "ok") == "eio":
+            raise OSError(errno.EIO, "x")
 
     def flush(self):
         _env.out("flush", "ok")
@@ -269,6 +271,8 @@ def extract(lock_cls_name, maxcalls=22, interrupts=False):
             end = "END_RAISED"
         except KeyboardInterrupt:
             end = "END_INTR"
+        except OSError:
+            end = "END_OSERROR"
         except core.PathAbort:
             traces.add(tuple(_env.trace) + (("END_CUT", "", ()),))
             info["assign"] |= _env.assign_sites
@@ -318,7 +322,21 @@ def extract(lock_cls_name, maxcalls=22, interrupts=False):
                 held = False
             elif call in ("write", "flush", "close") and not held:
                 io_outside.add((call, tuple(x for x in site if isinstance(x, int))))
-    return dict(io_outside_lock=sorted(io_outside), nodes=nodes, edges=edges, root=root, assign_sites=info["assign"], expiry=sorted(info["expiry"]), compare_sites=info["compare"], flow_ok=info["flow_ok"],
+    # second path property: a process that created the lock and is still alive releases it on EVERY way out of append_logs,
+    # exceptional ones (a failing write, an interrupt) included
+    lock_leaked = set()
+    for tr in traces:
+        if tr[-1][0] == "END_CUT":
+            continue
+        held = False
+        for (call, outcome, site) in tr:
+            if call == "create" and outcome == "ok":
+                held = True
+            elif call == "rename":
+                held = False
+        if held:
+            lock_leaked.add(tr[-1][0] + " after " + "/".join(f"{c}:{o}" for (c, o, _) in tr if o not in ("ok", "")))
+    return dict(lock_leaked=sorted(lock_leaked), io_outside_lock=sorted(io_outside), nodes=nodes, edges=edges, root=root, assign_sites=info["assign"], expiry=sorted(info["expiry"]), compare_sites=info["compare"], flow_ok=info["flow_ok"],
                 conflicts=conflicts, conflict_samples=conflict_samples, paths=ex.stats.paths, wall_s=time.time() - t0, lock=lock_cls_name)
 
 
@@ -532,7 +550,7 @@ class MemFS:
             self.mtime["/x/j.log.lock"] = 0
 
 
-def replay(lock_cls_name, trace, K, crash, rounds=1):
+def replay(lock_cls_name, trace, K, crash, rounds=1, fail_write=()):
     """run the real append_logs of K workers following `trace` (list of {p, call, now}); returns (violation:str|None, log)"""
     fs = MemFS(crash)
     sem_main = threading.Semaphore(0)
@@ -615,6 +633,8 @@ def replay(lock_cls_name, trace, K, crash, rounds=1):
 
         def write(self, b):
             sync("write")
+            if tls.w.pop("fail_write", False):
+                raise OSError(errno.EIO, "injected write failure")
             self._must_hold("write")
             self.dirty = True
             fs.journal += b
@@ -665,6 +685,10 @@ def replay(lock_cls_name, trace, K, crash, rounds=1):
                     pass
                 except KeyboardInterrupt:
                     state["log"].append((wid, "interrupted"))
+                except OSError as e:
+                    state["log"].append((wid, f"append_logs raised {type(e).__name__}"))
+                    if "/x/j.log.lock" in fs.links and fs.links["/x/j.log.lock"] == wid:
+                        state["violations"].append(f"worker {wid} is alive, its append_logs raised {type(e).__name__}, and its lock file is still there: everybody else has to wait out the grace period")
                 except RuntimeError as e:
                     state["violations"].append(f"worker {wid}: append_logs raised RuntimeError({e})")
                 except BaseException as e:  # noqa
@@ -674,7 +698,7 @@ def replay(lock_cls_name, trace, K, crash, rounds=1):
                     sem_main.release()
             return body
         for wid in range(K):
-            workers.append({"id": wid, "sem": threading.Semaphore(0), "done": False})
+            workers.append({"id": wid, "sem": threading.Semaphore(0), "done": False, "fail_write": wid in fail_write})
         for wid in range(K):
             th = threading.Thread(target=run(wid), daemon=True)
             workers[wid]["thread"] = th
